@@ -23,6 +23,10 @@ package ocimem
 //@ pure func repoWF(p *repository) bool =
 //@   p != nil && p.tags != nil && p.manifests != nil && p.blobs != nil && p.uploads != nil
 
+//@ pure func hasBlob(r *Registry, n string, d ociregistry.Digest) bool = in(r.repos, n) && in(r.repos[n].blobs, d)
+//@ pure func hasManifest(r *Registry, n string, d ociregistry.Digest) bool = in(r.repos, n) && in(r.repos[n].manifests, d)
+//@ pure func hasTag(r *Registry, n string, t string) bool = in(r.repos, n) && in(r.repos[n].tags, t)
+
 //@ invariant (*Registry) self != nil
 //@ invariant (*Registry) forall n string :: in(self.repos, n) ==> repoWF(self.repos[n])
 //@ invariant (*Registry) forall n string, d ociregistry.Digest :: in(self.repos, n) && in(self.repos[n].blobs, d) ==>
@@ -31,6 +35,14 @@ package ocimem
 //@     self.repos[n].manifests[d] != nil && digest.FromBytes(self.repos[n].manifests[d].data) == d
 //@ invariant (*Registry) forall n string, id string :: in(self.repos, n) && in(self.repos[n].uploads, id) ==>
 //@     self.repos[n].uploads[id] != nil && self.repos[n].uploads[id].commit != nil
+
+// Repositories own their maps: no two repositories share one, and a
+// repository's manifest map is not a blob map (same Go type).
+//@ invariant (*Registry) forall n1, n2 string :: in(self.repos, n1) && in(self.repos, n2) && n1 != n2 ==>
+//@     self.repos[n1] != self.repos[n2] && self.repos[n1].tags != self.repos[n2].tags &&
+//@     self.repos[n1].manifests != self.repos[n2].manifests && self.repos[n1].blobs != self.repos[n2].blobs
+//@ invariant (*Registry) forall n1, n2 string :: in(self.repos, n1) && in(self.repos, n2) ==>
+//@     self.repos[n1].manifests != self.repos[n2].blobs
 
 //@ invariant (*blob) self != nil
 //@ invariant (*bytesReader) self != nil
@@ -44,13 +56,14 @@ package ocimem
 // CheckDescriptor: a descriptor that passes the check against some bytes
 // names exactly those bytes.
 //@ func CheckDescriptor
-//@   modifies nothing
+//@   pure
 //@   ensures[digest-and-size-match] result == nil && data != nil ==>
 //@             digest.FromBytes(data) == desc.Digest && desc.Size == len(data)
 //@   ensures[sane] result == nil ==> desc.MediaType != "" && desc.Digest.Validate() == nil
 
+// (a function of the blob alone: its fields are immutable)
 //@ func (*blob).descriptor
-//@   modifies nothing
+//@   pure
 //@   ensures[describes-its-bytes] result.MediaType == b.mediaType && result.Size == len(b.data) &&
 //@             result.Digest == digest.FromBytes(b.data)
 
@@ -90,6 +103,12 @@ package ocimem
 //@   ensures[invalid-name-changes-nothing] !ociref.IsValidRepository(repoName) ==>
 //@     forall n string, d ociregistry.Digest :: in(r.repos, n) && in(r.repos[n].blobs, d) ==> old(in(r.repos, n) && in(r.repos[n].blobs, d))
 //@   ensures[repo-exists-afterwards] ociref.IsValidRepository(repoName) ==> result.1 == nil && in(r.repos, repoName) && result.0 == r.repos[repoName]
+//@   ensures[keeps-every-blob] forall n string, d ociregistry.Digest :: hasBlob(r, n, d) == old(hasBlob(r, n, d)) &&
+//@     (hasBlob(r, n, d) ==> r.repos[n].blobs[d] == old(r.repos[n].blobs[d]))
+//@   ensures[keeps-every-manifest] forall n string, d ociregistry.Digest :: hasManifest(r, n, d) == old(hasManifest(r, n, d)) &&
+//@     (hasManifest(r, n, d) ==> r.repos[n].manifests[d] == old(r.repos[n].manifests[d]))
+//@   ensures[keeps-every-tag] forall n string, t string :: hasTag(r, n, t) == old(hasTag(r, n, t)) &&
+//@     (hasTag(r, n, t) ==> r.repos[n].tags[t] == old(r.repos[n].tags[t]))
 
 // Reads.
 //@ func (*Registry).GetBlob
@@ -148,30 +167,132 @@ package ocimem
 
 //@ func (*Registry).MountBlob
 //@   atomic
+//@   ensures[mounted-from-the-source] result.1 == nil ==> old(hasBlob(r, fromRepo, dig)) && hasBlob(r, toRepo, dig) &&
+//@     r.repos[toRepo].blobs[dig] == old(r.repos[fromRepo].blobs[dig]) && result.0.Digest == dig
+//@   ensures[touches-only-that-blob] forall n string, d ociregistry.Digest :: !(n == toRepo && d == dig) ==>
+//@     hasBlob(r, n, d) == old(hasBlob(r, n, d)) && (hasBlob(r, n, d) ==> r.repos[n].blobs[d] == old(r.repos[n].blobs[d]))
+//@   ensures[manifests-and-tags-untouched] forall n string, d ociregistry.Digest, t string ::
+//@     hasManifest(r, n, d) == old(hasManifest(r, n, d)) && hasTag(r, n, t) == old(hasTag(r, n, t)) &&
+//@     (hasTag(r, n, t) ==> r.repos[n].tags[t] == old(r.repos[n].tags[t]))
+
+// PushManifest. "already tagged" is the immutable-tags shortcut: the tag is
+// bound, and the call either confirms the binding or is denied.
+//@ pure func alreadyTagged(r *Registry, n string, t string) bool = r.cfg.ImmutableTags && t != "" && hasTag(r, n, t)
 //@ func (*Registry).PushManifest
 //@   atomic
+//@   ensures[describes-the-bytes] result.1 == nil ==> result.0.Digest == digest.FromBytes(data) && result.0.MediaType == mediaType
+//@   ensures[stored-under-its-digest] result.1 == nil && !old(alreadyTagged(r, repoName, tag)) ==> result.0.Size == len(data) &&
+//@     hasManifest(r, repoName, digest.FromBytes(data)) &&
+//@     string(r.repos[repoName].manifests[digest.FromBytes(data)].data) == string(data) &&
+//@     r.repos[repoName].manifests[digest.FromBytes(data)].mediaType == mediaType
+//@   ensures[tag-bound-to-it] result.1 == nil && tag != "" ==> hasTag(r, repoName, tag) &&
+//@     r.repos[repoName].tags[tag].Digest == digest.FromBytes(data) && r.repos[repoName].tags[tag].MediaType == mediaType
+//@   ensures[references-checked-before-storing] result.1 == nil && !old(alreadyTagged(r, repoName, tag)) ==>
+//@     calls == [r.checkManifest(repoName, mediaType, _)] && calls[0].result.1 == nil
+//@   ensures[immutable-tags-never-move] old(r.cfg.ImmutableTags) ==> forall n string, t string :: old(hasTag(r, n, t)) ==>
+//@     hasTag(r, n, t) && r.repos[n].tags[t] == old(r.repos[n].tags[t])
+//@   ensures[other-tags-untouched] forall n string, t string :: !(n == repoName && t == tag) ==>
+//@     hasTag(r, n, t) == old(hasTag(r, n, t)) && (hasTag(r, n, t) ==> r.repos[n].tags[t] == old(r.repos[n].tags[t]))
+//@   ensures[nothing-removed] forall n string, d ociregistry.Digest :: (old(hasManifest(r, n, d)) ==> hasManifest(r, n, d)) &&
+//@     hasBlob(r, n, d) == old(hasBlob(r, n, d))
+//@   ensures[other-manifests-untouched] forall n string, d ociregistry.Digest :: !(n == repoName && d == digest.FromBytes(data)) ==>
+//@     hasManifest(r, n, d) == old(hasManifest(r, n, d)) && (hasManifest(r, n, d) ==> r.repos[n].manifests[d] == old(r.repos[n].manifests[d]))
+//@   ensures[rejected-stores-nothing] result.1 != nil ==> forall n string, d ociregistry.Digest, t string ::
+//@     hasManifest(r, n, d) == old(hasManifest(r, n, d)) && hasTag(r, n, t) == old(hasTag(r, n, t)) &&
+//@     (hasTag(r, n, t) ==> r.repos[n].tags[t] == old(r.repos[n].tags[t]))
+
 //@ func (*Registry).PushBlobChunked
 //@ func (*Registry).PushBlobChunkedResume
 //@   atomic
+
+// Deletions. In immutable-tags mode content is only deleted after refersTo
+// found it unreachable from every tag.
 //@ func (*Registry).DeleteBlob
 //@   atomic
+//@   ensures[deleted] result == nil ==> old(hasBlob(r, repoName, digest)) && !hasBlob(r, repoName, digest)
+//@   ensures[unknown-name] !old(in(r.repos, repoName)) ==> result == ociregistry.ErrNameUnknown
+//@   ensures[unknown-blob] old(in(r.repos, repoName)) && !old(hasBlob(r, repoName, digest)) ==> result == ociregistry.ErrBlobUnknown
+//@   ensures[touches-only-that-blob] forall n string, d ociregistry.Digest :: !(n == repoName && d == digest) ==>
+//@     hasBlob(r, n, d) == old(hasBlob(r, n, d)) && (hasBlob(r, n, d) ==> r.repos[n].blobs[d] == old(r.repos[n].blobs[d]))
+//@   ensures[failed-deletes-nothing] result != nil ==> forall n string, d ociregistry.Digest :: hasBlob(r, n, d) == old(hasBlob(r, n, d))
+//@   ensures[manifests-and-tags-untouched] forall n string, d ociregistry.Digest, t string ::
+//@     hasManifest(r, n, d) == old(hasManifest(r, n, d)) && hasTag(r, n, t) == old(hasTag(r, n, t)) &&
+//@     (hasTag(r, n, t) ==> r.repos[n].tags[t] == old(r.repos[n].tags[t]))
+//@   ensures[tagged-content-protected] old(r.cfg.ImmutableTags) && result == nil ==>
+//@     calls == [refersTo(old(r.repos[repoName]), repoTagIter(old(r.repos[repoName])), digest)] && !calls[0].result.0 && calls[0].result.1 == nil
+
 //@ func (*Registry).DeleteManifest
 //@   atomic
+//@   ensures[deleted] result == nil ==> old(hasManifest(r, repoName, digest)) && !hasManifest(r, repoName, digest)
+//@   ensures[unknown-name] !old(in(r.repos, repoName)) ==> result == ociregistry.ErrNameUnknown
+//@   ensures[unknown-manifest] old(in(r.repos, repoName)) && !old(hasManifest(r, repoName, digest)) ==> result == ociregistry.ErrManifestUnknown
+//@   ensures[touches-only-that-manifest] forall n string, d ociregistry.Digest :: !(n == repoName && d == digest) ==>
+//@     hasManifest(r, n, d) == old(hasManifest(r, n, d)) && (hasManifest(r, n, d) ==> r.repos[n].manifests[d] == old(r.repos[n].manifests[d]))
+//@   ensures[failed-deletes-nothing] result != nil ==> forall n string, d ociregistry.Digest :: hasManifest(r, n, d) == old(hasManifest(r, n, d))
+//@   ensures[blobs-and-tags-untouched] forall n string, d ociregistry.Digest, t string ::
+//@     hasBlob(r, n, d) == old(hasBlob(r, n, d)) && hasTag(r, n, t) == old(hasTag(r, n, t)) &&
+//@     (hasTag(r, n, t) ==> r.repos[n].tags[t] == old(r.repos[n].tags[t]))
+//@   ensures[tagged-content-protected] old(r.cfg.ImmutableTags) && result == nil ==>
+//@     calls == [refersTo(old(r.repos[repoName]), repoTagIter(old(r.repos[repoName])), digest)] && !calls[0].result.0 && calls[0].result.1 == nil
+
 //@ func (*Registry).DeleteTag
 //@   atomic
+//@   ensures[deleted] result == nil ==> old(hasTag(r, repoName, tagName)) && !hasTag(r, repoName, tagName)
+//@   ensures[unknown-name] !old(in(r.repos, repoName)) ==> result == ociregistry.ErrNameUnknown
+//@   ensures[unknown-tag] old(in(r.repos, repoName)) && !old(hasTag(r, repoName, tagName)) ==> errIs(result, ociregistry.ErrManifestUnknown)
+//@   ensures[immutable-tags-stay] old(r.cfg.ImmutableTags) ==> result != nil
+//@   ensures[touches-only-that-tag] forall n string, t string :: !(n == repoName && t == tagName) ==>
+//@     hasTag(r, n, t) == old(hasTag(r, n, t)) && (hasTag(r, n, t) ==> r.repos[n].tags[t] == old(r.repos[n].tags[t]))
+//@   ensures[failed-deletes-nothing] result != nil ==> forall n string, t string :: hasTag(r, n, t) == old(hasTag(r, n, t))
+//@   ensures[content-untouched] forall n string, d ociregistry.Digest ::
+//@     hasBlob(r, n, d) == old(hasBlob(r, n, d)) && hasManifest(r, n, d) == old(hasManifest(r, n, d))
+
 //@ func (*Registry).Repositories
 //@   atomic
+//@   modifies nothing
+//@   ensures[sorted-names-after-the-start] calls == [mapKeysIter(r.repos, strings.Compare, startAfter)] && result == calls[0].result
 //@ func (*Registry).Tags
 //@   atomic
+//@   modifies nothing
+//@   ensures[unknown-name] !in(r.repos, repoName) ==> result == ociregistry.ErrorSeq(ociregistry.ErrNameUnknown)
+//@   ensures[sorted-tags-after-the-start] in(r.repos, repoName) ==>
+//@     calls == [mapKeysIter(r.repos[repoName].tags, strings.Compare, startAfter)] && result == calls[0].result
 //@ func (*Registry).Referrers
 //@   atomic
+//@   modifies nothing
+//@   ensures[unknown-name] !in(r.repos, repoName) ==> result == ociregistry.ErrorSeq(ociregistry.ErrNameUnknown)
+//@   loop 0 invariant forall i int :: 0 <= i && i < len(referrers) ==> exists d ociregistry.Digest ::
+//@     in(repo.manifests, d) && visited(repo.manifests, d) && repo.manifests[d].subject == digest &&
+//@     referrers[i] == repo.manifests[d].descriptor()
+//@   loop 0 invariant forall d ociregistry.Digest :: visited(repo.manifests, d) && repo.manifests[d].subject == digest ==>
+//@     exists i int :: 0 <= i && i < len(referrers) && referrers[i] == repo.manifests[d].descriptor()
+//@   ensures[only-manifests-naming-the-subject] in(r.repos, repoName) ==> forall i int :: 0 <= i && i < len(referrers) ==>
+//@     exists d ociregistry.Digest :: hasManifest(r, repoName, d) && r.repos[repoName].manifests[d].subject == digest &&
+//@       referrers[i] == r.repos[repoName].manifests[d].descriptor()
+//@   ensures[every-manifest-naming-the-subject] in(r.repos, repoName) ==> forall d ociregistry.Digest ::
+//@     hasManifest(r, repoName, d) && r.repos[repoName].manifests[d].subject == digest ==>
+//@     exists i int :: 0 <= i && i < len(referrers) && referrers[i] == r.repos[repoName].manifests[d].descriptor()
+//@   ensures[in-digest-order] in(r.repos, repoName) ==> forall i, j int :: 0 <= i && i < j && j < len(referrers) ==> referrers[i].Digest <= referrers[j].Digest
+//@   ensures[yields-that-slice] in(r.repos, repoName) ==> result == ociregistry.SliceSeq(referrers)
 
 //@ func (*Registry).checkManifest
 //@   holds r.mu
 //@   modifies nothing
+//@   log
+//@   ensures[unknown-name] !in(r.repos, repoName) ==> result.1 != nil
+//@ func (*Registry).checkManifest$1
+//@   holds Registry.mu
+//@   requires repoWF(repo)
+//@   ensures[missing-blob-refused] info.kind == kindBlob && !in(repo.blobs, info.desc.Digest) ==> !result && retErr != nil
+//@   ensures[missing-manifest-refused] info.kind == kindManifest && !in(repo.manifests, info.desc.Digest) ==> !result && retErr != nil
+//@   ensures[malformed-descriptor-refused] CheckDescriptor(info.desc, nil) != nil ==> !result && retErr != nil
+//@   ensures[error-is-never-cleared] old(retErr) != nil ==> retErr != nil
+//@   ensures[stops-only-with-an-error] !result ==> retErr != nil
+//@   ensures[subject-recorded] result && info.kind == kindSubjectManifest ==> subject == info.desc.Digest
 //@ func refersTo
 //@   holds Registry.mu
 //@   modifies nothing
+//@   log
 //@   requires repoWF(repo) && iter != nil
 
 // (trusted: the table manifestIterators holds functions that return a
@@ -182,16 +303,30 @@ package ocimem
 //@   ensures[iterator-or-error] result.1 == nil ==> result.0 != nil
 //@ fn-type-pure descIter
 //@ func repoTagIter
-//@   modifies nothing
+//@   pure
 //@   requires repoWF(r)
 //@   ensures result != nil
 //@ func repoTagIter$1
 //@   holds Registry.mu
 //@   requires repoWF(r)
+// Listings: the keys strictly after the start point, each exactly once, in
+// the order of the comparison. ks is the slice the returned iterator yields
+// (SliceSeq's closure, verified in package ociregistry, yields exactly its
+// argument in order). visited(m, k) is the ghost state of the range over m.
 //@ func mapKeysIter
 //@   modifies nothing
+//@   log
+//@   pure-param cmp
 //@   requires cmp != nil
+//@   loop 0 invariant forall i int :: 0 <= i && i < len(ks) ==> in(m, ks[i]) && visited(m, ks[i]) && cmp(startAfter, ks[i]) < 0
+//@   loop 0 invariant forall k K :: visited(m, k) && cmp(startAfter, k) < 0 ==> exists i int :: 0 <= i && i < len(ks) && ks[i] == k
+//@   loop 0 invariant forall i, j int :: 0 <= i && i < j && j < len(ks) ==> ks[i] != ks[j]
 //@   ensures result != nil
+//@   ensures[yields-that-slice] result == ociregistry.SliceSeq(ks)
+//@   ensures[only-keys-after-the-start] forall i int :: 0 <= i && i < len(ks) ==> in(m, ks[i]) && cmp(startAfter, ks[i]) < 0
+//@   ensures[every-key-after-the-start] forall k K :: in(m, k) && cmp(startAfter, k) < 0 ==> exists i int :: 0 <= i && i < len(ks) && ks[i] == k
+//@   ensures[in-order] forall i, j int :: 0 <= i && i < j && j < len(ks) ==> cmp(ks[i], ks[j]) <= 0
+//@   ensures[each-once] forall i, j int :: 0 <= i && i < j && j < len(ks) ==> ks[i] != ks[j]
 //@ func NewBuffer
 //@   nocall
 //@   requires commit != nil
